@@ -151,7 +151,7 @@ def build_driver(engine, edir, driver_src=None):
     srcs = ["util.ml", "d_%s.ml" % engine]
     shutil.copy(os.path.join(VERIF, "ocaml", "util.ml"), od)
     shutil.copy(os.path.join(VERIF, "ocaml", driver_src or ("d_%s.ml" % engine)), os.path.join(od, "d_%s.ml" % engine))
-    rc, out2 = sh(["ocamlfind", "ocamlopt", "-w", "-a", "model.mli", "model.ml"] + srcs + ["main.ml", "-o", os.path.join(BUILD, "driver_" + engine)], cwd=od, timeout=900)
+    rc, out2 = sh(["ocamlfind", "ocamlopt", "-package", "unix", "-linkpkg", "-w", "-a", "model.mli", "model.ml"] + srcs + ["main.ml", "-o", os.path.join(BUILD, "driver_" + engine)], cwd=od, timeout=900)
     return rc == 0, out + out2
 
 def coqchk(pid, timeout=2400):
@@ -219,9 +219,17 @@ def _big_stack():
         try: resource.setrlimit(resource.RLIMIT_STACK, (1 << 30, 1 << 30))
         except (ValueError, OSError): pass
 
+def _model_limits():
+    # model side only (the sanitizer runtime of the harness needs its huge address space): a runaway value
+    # built under a changed generated definition must not take the machine down
+    import resource
+    try: resource.setrlimit(resource.RLIMIT_AS, (12 << 30, 12 << 30))
+    except (ValueError, OSError): pass
+    _big_stack()
+
 def run_side(cmd, traces_text, env=None, timeout=3000):
     p = subprocess.run(cmd, input=traces_text, stdout=subprocess.PIPE, stderr=subprocess.PIPE, text=True, errors="replace", env=env, timeout=timeout,
-                       preexec_fn=_big_stack)
+                       preexec_fn=_model_limits if "driver_" in os.path.basename(cmd[0]) else _big_stack)
     return parse_out(p.stdout), p
 
 def chunked(lst, n):
